@@ -40,6 +40,7 @@ pub fn exid(e: &ObjId) -> Id {
 pub fn render_scalar(s: &ScalarValue) -> String {
     match s {
         ScalarValue::F64(f) => format!("F64(bits={:#x})", f.to_bits()),
+        ScalarValue::Counter(c) => format!("Counter({})", i64::from(c)),
         x => format!("{:?}", x),
     }
 }
@@ -326,4 +327,288 @@ pub fn first_diff(a: &ONode, b: &ONode) -> Option<(String, String)> {
         }
     }
     go("", a, b)
+}
+
+// ---------------------------------------------------------------------------------------------
+// Extended read battery: every other read API, rendered canonically, with internal cross-checks
+// against `get_all` (winner = last entry, conflict = more than one entry).
+
+use crate::engine::driver::Failure;
+
+fn rv(v: &Value<'_>) -> String {
+    match v {
+        Value::Object(t) => format!("obj({:?})", t),
+        Value::Scalar(s) => render_scalar(s.as_ref()),
+    }
+}
+
+pub struct Battery {
+    pub lines: Vec<String>,
+    pub objects: Vec<(ObjId, ObjType)>,
+}
+
+/// `pick` drives sub-range choices deterministically
+pub fn read_battery<D: ReadDoc>(doc: &D, heads: Option<&[ChangeHash]>, pick: u64, prop: &str) -> Result<Battery, Failure> {
+    let mut lines = vec![];
+    let mut objects: Vec<(ObjId, ObjType)> = vec![(ROOT, ObjType::Map)];
+    let mut i = 0;
+    let bad = |api: &str, msg: String| Failure::new(format!("{prop}:read-consistency:{api}"), msg);
+    while i < objects.len() && objects.len() < 200 {
+        let (obj, ty) = objects[i].clone();
+        i += 1;
+        let oid = exid(&obj);
+        // hydrate / parents
+        let hy = doc.hydrate(&obj, heads).map(|v| render_hydrate(&v)).unwrap_or_else(|e| format!("Err({e})"));
+        lines.push(format!("{:?} hydrate {}", oid, hy));
+        let par = match heads {
+            None => doc.parents(&obj).map(|p| p.map(|x| format!("{:?}/{:?}/{:?}/{}", exid(&x.obj), x.typ, x.prop, x.visible)).collect::<Vec<_>>()),
+            Some(h) => doc.parents_at(&obj, h).map(|p| p.map(|x| format!("{:?}/{:?}/{:?}/{}", exid(&x.obj), x.typ, x.prop, x.visible)).collect::<Vec<_>>()),
+        };
+        lines.push(format!("{:?} parents {:?}", oid, par.map_err(|e| e.to_string())));
+        match ty {
+            ObjType::Map | ObjType::Table => {
+                let keys: Vec<String> = match heads {
+                    None => doc.keys(&obj).collect(),
+                    Some(h) => doc.keys_at(&obj, h).collect(),
+                };
+                let mut winners = vec![];
+                for k in &keys {
+                    let all = match heads {
+                        None => doc.get_all(&obj, k.as_str()),
+                        Some(h) => doc.get_all_at(&obj, k.as_str(), h),
+                    }
+                    .map_err(|e| bad("get_all", format!("get_all({k:?}) failed: {e}")))?;
+                    let one = match heads {
+                        None => doc.get(&obj, k.as_str()),
+                        Some(h) => doc.get_at(&obj, k.as_str(), h),
+                    }
+                    .map_err(|e| bad("get", format!("get({k:?}) failed: {e}")))?;
+                    let w = all.last().map(|(v, id)| (rv(v), exid(id)));
+                    let g = one.as_ref().map(|(v, id)| (rv(v), exid(id)));
+                    if w != g {
+                        return Err(bad("get-vs-get_all", format!("obj {:?} key {k:?}: get = {:?} but last of get_all = {:?}", oid, g, w)));
+                    }
+                    if all.is_empty() {
+                        return Err(bad("keys-vs-get_all", format!("obj {:?}: key {k:?} listed by keys() but get_all is empty", oid)));
+                    }
+                    for (v, id) in &all {
+                        if let Value::Object(t) = v {
+                            if !objects.iter().any(|(o, _)| o == id) {
+                                objects.push((id.clone(), *t));
+                            }
+                        }
+                    }
+                    winners.push((k.clone(), w.unwrap(), all.len() > 1));
+                }
+                let mr: Vec<(String, (String, Id), bool)> = match heads {
+                    None => doc.map_range(&obj, ..).map(|it| (it.key.to_string(), (format_vr(&it.value), exid(&it.id())), it.conflict)).collect(),
+                    Some(h) => doc.map_range_at(&obj, .., h).map(|it| (it.key.to_string(), (format_vr(&it.value), exid(&it.id())), it.conflict)).collect(),
+                };
+                if mr != winners {
+                    return Err(bad("map_range", format!("obj {:?}: map_range(..) = {:?} but winners from keys/get_all = {:?}", oid, mr, winners)));
+                }
+                if keys.len() >= 2 {
+                    let a = (pick as usize) % keys.len();
+                    let b = a + ((pick >> 8) as usize) % (keys.len() - a);
+                    let sub: Vec<String> = match heads {
+                        None => doc.map_range(&obj, keys[a].clone()..keys[b].clone()).map(|it| it.key.to_string()).collect(),
+                        Some(h) => doc.map_range_at(&obj, keys[a].clone()..keys[b].clone(), h).map(|it| it.key.to_string()).collect(),
+                    };
+                    if sub != keys[a..b].to_vec() {
+                        return Err(bad("map_range-subrange", format!("obj {:?}: map_range({:?}..{:?}) = {:?}, expected {:?}", oid, keys[a], keys[b], sub, &keys[a..b])));
+                    }
+                }
+                let vals: Vec<(String, Id)> = match heads {
+                    None => doc.values(&obj).map(|(v, id)| (rv(&v), exid(&id))).collect(),
+                    Some(h) => doc.values_at(&obj, h).map(|(v, id)| (rv(&v), exid(&id))).collect(),
+                };
+                let wv: Vec<(String, Id)> = winners.iter().map(|(_, w, _)| w.clone()).collect();
+                if vals != wv {
+                    return Err(bad("values", format!("obj {:?}: values() = {:?} but winners = {:?}", oid, vals, wv)));
+                }
+                lines.push(format!("{:?} map {:?}", oid, winners));
+            }
+            ObjType::List => {
+                let len = match heads {
+                    None => doc.length(&obj),
+                    Some(h) => doc.length_at(&obj, h),
+                };
+                let mut winners = vec![];
+                for ix in 0..len {
+                    let all = match heads {
+                        None => doc.get_all(&obj, ix),
+                        Some(h) => doc.get_all_at(&obj, ix, h),
+                    }
+                    .map_err(|e| bad("get_all", format!("get_all({ix}) failed: {e}")))?;
+                    let one = match heads {
+                        None => doc.get(&obj, ix),
+                        Some(h) => doc.get_at(&obj, ix, h),
+                    }
+                    .map_err(|e| bad("get", format!("get({ix}) failed: {e}")))?;
+                    let w = all.last().map(|(v, id)| (rv(v), exid(id)));
+                    let g = one.as_ref().map(|(v, id)| (rv(v), exid(id)));
+                    if w != g || w.is_none() {
+                        return Err(bad("get-vs-get_all", format!("list {:?}[{ix}] (len {len}): get = {:?} but last of get_all = {:?}", oid, g, w)));
+                    }
+                    for (v, id) in &all {
+                        if let Value::Object(t) = v {
+                            if !objects.iter().any(|(o, _)| o == id) {
+                                objects.push((id.clone(), *t));
+                            }
+                        }
+                    }
+                    winners.push((ix, w.unwrap(), all.len() > 1));
+                }
+                let lr: Vec<(usize, (String, Id), bool)> = match heads {
+                    None => doc.list_range(&obj, ..).map(|it| (it.index, (format_vr(&it.value), exid(&it.id())), it.conflict)).collect(),
+                    Some(h) => doc.list_range_at(&obj, .., h).map(|it| (it.index, (format_vr(&it.value), exid(&it.id())), it.conflict)).collect(),
+                };
+                if lr != winners {
+                    return Err(bad("list_range", format!("list {:?}: list_range(..) = {:?} but winners by index = {:?}", oid, lr, winners)));
+                }
+                if len >= 2 {
+                    let a = (pick as usize) % len;
+                    let b = a + ((pick >> 8) as usize) % (len - a + 1);
+                    let sub: Vec<usize> = match heads {
+                        None => doc.list_range(&obj, a..b).map(|it| it.index).collect(),
+                        Some(h) => doc.list_range_at(&obj, a..b, h).map(|it| it.index).collect(),
+                    };
+                    if sub != (a..b).collect::<Vec<_>>() {
+                        return Err(bad("list_range-subrange", format!("list {:?}: list_range({a}..{b}) gave indexes {:?}", oid, sub)));
+                    }
+                }
+                let vals: Vec<(String, Id)> = match heads {
+                    None => doc.values(&obj).map(|(v, id)| (rv(&v), exid(&id))).collect(),
+                    Some(h) => doc.values_at(&obj, h).map(|(v, id)| (rv(&v), exid(&id))).collect(),
+                };
+                let wv: Vec<(String, Id)> = winners.iter().map(|(_, w, _)| w.clone()).collect();
+                if vals != wv {
+                    return Err(bad("values", format!("list {:?}: values() = {:?} but winners = {:?}", oid, vals, wv)));
+                }
+                // cursors at a few positions
+                for ix in [0usize, (pick as usize) % (len + 1), len] {
+                    if ix < len {
+                        let c = doc.get_cursor(&obj, ix, heads).map_err(|e| bad("get_cursor", format!("list {:?}: get_cursor({ix}) of {len}: {e}", oid)))?;
+                        let p = doc.get_cursor_position(&obj, &c, heads).map_err(|e| bad("get_cursor_position", format!("list {:?}: position of cursor({ix}): {e}", oid)))?;
+                        if p != ix {
+                            return Err(bad("cursor-roundtrip", format!("list {:?}: get_cursor_position(get_cursor({ix})) = {p}", oid)));
+                        }
+                        lines.push(format!("{:?} cursor({ix})={}", oid, c));
+                    }
+                }
+                lines.push(format!("{:?} list {:?}", oid, winners));
+            }
+            ObjType::Text => {
+                let len = match heads {
+                    None => doc.length(&obj),
+                    Some(h) => doc.length_at(&obj, h),
+                };
+                let ms = match heads {
+                    None => doc.marks(&obj),
+                    Some(h) => doc.marks_at(&obj, h),
+                }
+                .map_err(|e| bad("marks", e.to_string()))?;
+                let mut last: Option<Id> = None;
+                for ix in 0..len {
+                    let g = match heads {
+                        None => doc.get(&obj, ix),
+                        Some(h) => doc.get_at(&obj, ix, h),
+                    }
+                    .map_err(|e| bad("get", format!("text {:?}: get({ix}) of {len}: {e}", oid)))?;
+                    let Some((v, id)) = g else { return Err(bad("get", format!("text {:?}: get({ix}) of {len} is None", oid))) };
+                    if let Value::Object(t) = &v {
+                        if !objects.iter().any(|(o, _)| *o == id) {
+                            objects.push((id.clone(), *t));
+                        }
+                    }
+                    let start = last.as_ref() != Some(&exid(&id));
+                    last = Some(exid(&id));
+                    if !start {
+                        // indexes inside a multi-unit character are not asserted (DESIGN C24 "Not asserted")
+                        continue;
+                    }
+                    // get_marks(i) must agree with marks()
+                    let gm = doc.get_marks(&obj, ix, heads).map_err(|e| bad("get_marks", format!("text {:?}: get_marks({ix}): {e}", oid)))?;
+                    let mut a: Vec<(String, String)> = gm.iter().map(|(n, v)| (n.to_string(), render_scalar(v))).filter(|(_, v)| v != "Null").collect();
+                    a.sort();
+                    let mut b: Vec<(String, String)> = ms.iter().filter(|m| m.start <= ix && ix < m.end).map(|m| (m.name().to_string(), render_scalar(m.value()))).collect();
+                    b.sort();
+                    if a != b {
+                        return Err(bad("get_marks-vs-marks", format!("text {:?} position {ix}: get_marks = {:?} but marks() covering it = {:?}", oid, a, b)));
+                    }
+                    if start {
+                        let c = doc.get_cursor(&obj, ix, heads).map_err(|e| bad("get_cursor", format!("text {:?}: get_cursor({ix}) of {len}: {e}", oid)))?;
+                        let p = doc.get_cursor_position(&obj, &c, heads).map_err(|e| bad("get_cursor_position", format!("text {:?}: position of cursor({ix}): {e}", oid)))?;
+                        if p != ix {
+                            return Err(bad("cursor-roundtrip", format!("text {:?}: get_cursor_position(get_cursor({ix})) = {p}", oid)));
+                        }
+                        lines.push(format!("{:?} cursor({ix})={}", oid, c));
+                    }
+                }
+            }
+        }
+    }
+    // whole-document iterator
+    let items: Vec<String> = doc
+        .iter_at(&ROOT, heads)
+        .map(|it| {
+            let o = exid(&it.obj);
+            match &it.item {
+                automerge::iter::DocItem::Map(m) => format!("{:?} map {:?}={} c={} id={:?}", o, m.key, format_vr(&m.value), m.conflict, exid(&m.id())),
+                automerge::iter::DocItem::List(l) => format!("{:?} list [{}]={} c={} id={:?}", o, l.index, format_vr(&l.value), l.conflict, exid(&l.id())),
+                automerge::iter::DocItem::Text(s) => format!("{:?} text {}", o, render_span(s)),
+            }
+        })
+        .collect();
+    lines.push(format!("iter {:?}", items));
+    Ok(Battery { lines, objects })
+}
+
+fn format_vr(v: &automerge::ValueRef<'_>) -> String {
+    rv(&v.clone().into_value())
+}
+
+/// objects reachable from ROOT through winning values only (what a materialised view contains)
+pub fn winner_objects<D: ReadDoc>(doc: &D, heads: Option<&[ChangeHash]>) -> Vec<(ObjId, ObjType)> {
+    let mut out: Vec<(ObjId, ObjType)> = vec![(ROOT, ObjType::Map)];
+    let mut i = 0;
+    while i < out.len() && out.len() < 200 {
+        let (obj, ty) = out[i].clone();
+        i += 1;
+        let mut push = |g: Result<Option<(Value<'_>, ObjId)>, automerge::AutomergeError>| {
+            if let Ok(Some((Value::Object(t), id))) = g {
+                if !out.iter().any(|(o, _)| *o == id) {
+                    out.push((id, t));
+                }
+            }
+        };
+        match ty {
+            ObjType::Map | ObjType::Table => {
+                let keys: Vec<String> = match heads {
+                    None => doc.keys(&obj).collect(),
+                    Some(h) => doc.keys_at(&obj, h).collect(),
+                };
+                for k in keys {
+                    push(match heads {
+                        None => doc.get(&obj, k.as_str()),
+                        Some(h) => doc.get_at(&obj, k.as_str(), h),
+                    });
+                }
+            }
+            ObjType::List => {
+                let len = match heads {
+                    None => doc.length(&obj),
+                    Some(h) => doc.length_at(&obj, h),
+                };
+                for ix in 0..len {
+                    push(match heads {
+                        None => doc.get(&obj, ix),
+                        Some(h) => doc.get_at(&obj, ix, h),
+                    });
+                }
+            }
+            ObjType::Text => {}
+        }
+    }
+    out
 }
